@@ -2,6 +2,8 @@
 import datetime
 import decimal
 
+from crosshair.tracers import NoTracing
+
 from vlib.ob import Ob, tier
 from harness.common import HTML, cooked
 
@@ -240,14 +242,96 @@ def make_expr(n):
     return ob
 
 
-def make_items(n, t):
-    """2-tuples (key, value): empty sort / sort=sequence-item order by the key, stably; value printed is the original index"""
-    def ob(a: int, b: int, c: int, d: int) -> bool:
+T_ITEM_REC = cooked('<dtml-in seq sort=sequence-item><dtml-call "rec(_[\'sequence-key\'], _[\'sequence-item\'])"></dtml-in>')
+T_EMPTY_REC = cooked('<dtml-in seq sort><dtml-call "rec(_[\'sequence-key\'], _[\'sequence-item\'])"></dtml-in>')
+T_EMPTY_REV = cooked('<dtml-in seq sort reverse><dtml-call "rec(_[\'sequence-key\'], _[\'sequence-item\'])"></dtml-in>')
+
+
+def make_items(n, t, rev=False):
+    """2-tuples (key, value): empty sort / sort=sequence-item order by the key only, stably - whatever the values are
+    (symbolic ints, so ties in the key meet values in any order; a recorder observes key and value)"""
+    def ob(a: int, b: int, c: int, d: int, va: int, vb: int, vc: int, vd: int) -> bool:
         ks = [a, b, c, d][:n]
-        seq = [(ks[i], i) for i in range(n)]
-        got, same = render_order(t, seq)
-        return same and check(got, ks, lambda x, y: ks[x] < ks[y])
-    ob.__name__ = 'ob_items_%d' % n
+        vs = [va, vb, vc, vd][:n]
+        seq = [(ks[i], vs[i]) for i in range(n)]
+        orig = list(seq)
+        seen = []
+        t(seq=seq, rec=lambda k, v: seen.append((k, v)))
+        if not unchanged(seq, orig) or len(seen) != n:
+            return False
+        exp = stable_sorted(list(range(n)), lambda x, y: ks[x] < ks[y])
+        if rev:
+            exp.reverse()
+        for p in range(n):
+            if seen[p][0] != ks[exp[p]] or seen[p][1] != vs[exp[p]]:
+                return False
+        return True
+    ob.__name__ = 'ob_items_%d%s' % (n, '_rev' if rev else '')
+    return ob
+
+
+def make_items_dict(n):
+    """2-tuples whose values are not comparable at all (dicts): ties in the key must not make the sort look at them"""
+    def ob(a: int, b: int, c: int) -> bool:
+        ks = [a, b, c][:n]
+        seq = [(ks[i], {'i': i}) for i in range(n)]
+        seen = []
+        T_EMPTY_REC(seq=seq, rec=lambda k, v: seen.append(v['i']))
+        return check(seen, ks, lambda x, y: ks[x] < ks[y])
+    ob.__name__ = 'ob_items_dict_%d' % n
+    return ob
+
+
+SRC_EXPR = '<dtml-in seq sort_expr="sk"><dtml-var i>,</dtml-in>'
+SRC_USERF = '<dtml-in seq sort=k/mycmp><dtml-var i>,</dtml-in>'
+
+
+def fresh(src):
+    with NoTracing():
+        t = HTML(src)
+        t.cook()
+    return t
+
+
+def make_expr_twice(n):
+    """the sort specification is evaluated per rendering: two renderings of ONE freshly compiled template with different
+    sort_expr values (symbolic choice of key and direction each time) must each be ordered by their own specification"""
+    def ob(a: int, b: int, c: int, ja: int, jb: int, jc: int, usej1: bool, desc1: bool, usej2: bool, desc2: bool) -> bool:
+        ks = [a, b, c][:n]
+        js = [ja, jb, jc][:n]
+        t = fresh(SRC_EXPR)
+        for usej, desc in ((usej1, desc1), (usej2, desc2)):
+            seq = [O(k=ks[i], j=js[i], i=i) for i in range(n)]
+            use = js if usej else ks
+            spec = ('j' if usej else 'k') + ('/cmp/desc' if desc else '/cmp')
+            got, same = render_order(t, seq, sk=spec)
+            if not same or not check(got, use, (lambda x, y: use[x] > use[y]) if desc else (lambda x, y: use[x] < use[y])):
+                return False
+        return True
+    ob.__name__ = 'ob_sortexpr_twice_%d' % n
+    return ob
+
+
+def make_userf_twice(n):
+    """a comparison function named in sort= is looked up in the namespace of each rendering"""
+    def ob(a: int, b: int, c: int, abs1: bool, abs2: bool) -> bool:
+        ks = [a, b, c][:n]
+        t = fresh(SRC_USERF)
+
+        def cmp_abs(x, y):
+            ax, ay = abs(x), abs(y)
+            return (ax > ay) - (ax < ay)
+
+        def cmp_neg(x, y):
+            return (x < y) - (x > y)
+        for use_abs in (abs1, abs2):
+            seq = [O(k=ks[i], i=i) for i in range(n)]
+            got, same = render_order(t, seq, mycmp=cmp_abs if use_abs else cmp_neg)
+            less = (lambda x, y: abs(ks[x]) < abs(ks[y])) if use_abs else (lambda x, y: ks[x] > ks[y])
+            if not same or not check(got, ks, less):
+                return False
+        return True
+    ob.__name__ = 'ob_userf_twice_%d' % n
     return ob
 
 
@@ -341,8 +425,15 @@ OBLIGATIONS.append(Ob('two_map_n2', make_two(2, T_TWO_MAP, False, False, True), 
 OBLIGATIONS.append(Ob('nocase_n%d' % tier(3, 4), make_nocase(tier(3, 4)), ['0 <= %s < 8' % v for v in 'abcd'], timeout=tier(200, 900),
                       data='key index 0..7 (symbolic) into %r' % WORDS, selectors='sort=k/nocase'))
 OBLIGATIONS.append(Ob('sort_expr_n3', make_expr(3), timeout=tier(280, 900), data='int keys k, j; symbolic choice of key and direction at render time', selectors='sort_expr="sk"'))
-OBLIGATIONS.append(Ob('items_item_n%d' % tier(3, 4), make_items(tier(3, 4), T_ITEM_T), timeout=tier(200, 900), data='int keys of 2-tuples', selectors='sort=sequence-item over (key, value) tuples'))
-OBLIGATIONS.append(Ob('items_empty_n%d' % tier(3, 4), make_items(tier(3, 4), T_EMPTY_T), timeout=tier(200, 900), data='int keys of 2-tuples', selectors='empty sort over (key, value) tuples'))
+NI = tier(3, 4)
+OBLIGATIONS.append(Ob('items_item_n%d' % NI, make_items(NI, T_ITEM_REC), timeout=tier(200, 900), data='unbounded int keys AND unbounded int values of 2-tuples', selectors='sort=sequence-item over (key, value) tuples'))
+OBLIGATIONS.append(Ob('items_empty_n%d' % NI, make_items(NI, T_EMPTY_REC), timeout=tier(200, 900), data='unbounded int keys AND values of 2-tuples', selectors='empty sort over (key, value) tuples'))
+OBLIGATIONS.append(Ob('items_empty_rev_n3', make_items(3, T_EMPTY_REV, True), timeout=tier(200, 900), data='unbounded int keys AND values of 2-tuples', selectors='empty sort + reverse over (key, value) tuples'))
+OBLIGATIONS.append(Ob('items_dict_n3', make_items_dict(3), timeout=tier(200, 900), data='unbounded int keys of 2-tuples with dict values', selectors='empty sort over (key, dict) tuples'))
+OBLIGATIONS.append(Ob('sort_expr_twice_n%d' % tier(2, 3), make_expr_twice(tier(2, 3)), timeout=tier(280, 900), data='int keys k, j; two renderings of one fresh template, each with a symbolic choice of key and direction',
+                      selectors='sort_expr="sk" rendered twice', stubs='template compiled untraced inside the obligation (fresh object per path)'))
+OBLIGATIONS.append(Ob('userf_twice_n3', make_userf_twice(3), ['-3 <= a <= 3', '-3 <= b <= 3', '-3 <= c <= 3'], timeout=tier(280, 900), data='int keys -3..3; comparison function chosen per rendering',
+                      selectors='sort=k/mycmp rendered twice', stubs='template compiled untraced inside the obligation (fresh object per path)'))
 OBLIGATIONS.append(Ob('plain_item_n3', make_plain(3), timeout=tier(200, 900), data='3 unbounded int elements', selectors='sort=sequence-item over plain ints (recorder observes the order)'))
 OBLIGATIONS.append(Ob('reverse_n3', make_revonly(3), timeout=tier(200, 900), data='int keys, reverse_expr truth value', selectors='reverse alone; sort=k reverse_expr="r"'))
 OBLIGATIONS.append(Ob('userf_n3', make_userf(3), ['-3 <= a <= 3', '-3 <= b <= 3', '-3 <= c <= 3'], timeout=tier(250, 900), data='int keys -3..3', selectors='sort=k/mycmp (comparison function from the namespace)'))
